@@ -186,6 +186,9 @@ func checkC02(c C02Case, o *Obs) error {
 			if err := fq.Write(&w); err != nil {
 				return fmt.Errorf("record %d: Write to a buffer failed: %v", i, err)
 			}
+			if err := writeAfterFailure(fq.Write, w.Bytes()); err != nil {
+				return fmt.Errorf("record %d: %v", i, err)
+			}
 			var mt []byte
 			var merr error
 			if p := catch(func() { mt, merr = fq.MarshalText() }); p != nil || merr != nil {
